@@ -148,6 +148,17 @@ pub fn to_lossy_bytes(input: &str) -> Cow<[u8]> {
     output.into()
 }
 
+/// Is this the first byte of a double-byte character in the given codepage?
+fn is_double_byte_lead(encoding: Option<&'static encoding_rs::Encoding>, byte: u8) -> bool {
+    match encoding {
+        Some(e) if e == encoding_rs::SHIFT_JIS => matches!(byte, 0x81..=0x9F | 0xE0..=0xFC),
+        Some(e) if e == encoding_rs::BIG5 || e == encoding_rs::GBK || e == encoding_rs::EUC_KR => {
+            matches!(byte, 0x81..=0xFE)
+        },
+        _ => false,
+    }
+}
+
 /// Convert a InsimString into a native rust String, with potential lossy conversion from codepages
 /// Assumes any \0 characters have been stripped ahead of time
 pub fn to_lossy_string(input: &[u8]) -> Cow<str> {
@@ -158,7 +169,9 @@ pub fn to_lossy_string(input: &[u8]) -> Cow<str> {
 
     // find the positions in the input for each ^L, ^B...
     // An escaped control character (^^) is not a marker, even if a codepage letter follows it.
+    // Nor is the second byte of a double-byte character, which may have the same value as ^.
     let mut indices: Vec<usize> = Vec::new();
+    let mut current: Option<&'static encoding_rs::Encoding> = None;
     let mut i = 0;
     while i + 1 < input.len() {
         if input[i].is_lfs_control_char() {
@@ -169,9 +182,13 @@ pub fn to_lossy_string(input: &[u8]) -> Cow<str> {
 
             if input[i + 1].is_lfs_codepage() {
                 indices.push(i);
+                current = input[i + 1].as_lfs_codepage();
                 i += 2;
                 continue;
             }
+        } else if is_double_byte_lead(current, input[i]) {
+            i += 2;
+            continue;
         }
 
         i += 1;
